@@ -17,17 +17,16 @@ RULE = ("configs: random trees (depth <= 4, fan-out <= 4, at most ~40 lines, ind
         "substrings, ^prefix, suffix$, whole line, a|b, (a)b, (?:a|b)c, \\s+ for blanks, never-matching, empty leftmost match (a*, '', ^, $, ^$, x?); "
         "flags cross product exactmatch x ignore_ws x escape_chars x reverse x recurse x empty_branches (each where the API accepts it). "
         "Oracle rows are computed with Python's re on the kept line texts using the property's reading of the flags (fullmatch / whitespace runs -> \\s+ / "
-        "literal text). Not sent to the model (implementation and oracle still run): escape_chars+ignore_ws with whitespace in a pattern "
-        "(finding FC04c: the composed expression is not what either flag means) and the wo-child list form when the second character of p is not a "
-        "valid expression (re.error). For the list forms of find_parent_objects / find_child_objects the rows sent are those of the raw expressions, because "
-        "these forms never look at ignore_ws (finding FC04a); the oracle uses the flag reading throughout. regex_flags / regex_groups are not generated; "
+        "literal text / literal text with tolerant whitespace runs for escape_chars+ignore_ws), for every calling form. Not sent to the model (implementation and "
+        "oracle still run): the wo-child list form when the second character of p is not a valid expression (re.error, F07). "
+        "regex_flags / regex_groups are not generated; "
         "typeguard rejections are out of scope. non-trivial = the config has a child line and the answer is a non-empty list; distinct by request.")
 LEVEL_TEXT = ("Theorems (Lean 4, all trees, all oracle rows): find_objects = ascending list of matching lines (reversed on request, duplicate free, in range); "
               "find_object_branches without empty branches = the lexicographically ordered list of all chains of direct parent->child lines matching "
               "regex i at depth i, and with empty branches = the maximal partial chains padded with None; list forms of find_parent/find_child = ascending "
               "duplicate-free first/last components of the chains; two-argument forms and 'parents without child' = exactly the matching parents having "
               "some/no matching direct (recurse=False) or any-depth (recurse=True, under the forest invariant parent <= line) child; list form of length 2 = "
-              "two-argument form at recurse=False. The model is tied to the code by differential runs (tree dump and answer of every query compared).")
+              "two-argument form at recurse=False for either value of reverse and any flag reading of the rows; has_child_with = some matching direct/any-depth child. The model is tied to the code by differential runs (tree dump and answer of every query compared).")
 LEVEL_NOTE = ("Trusted: Lean kernel, standard axioms, the harness. Python's re is an oracle parameter (rows), universally quantified in the theorems and computed with re "
               "directly in the runs. The tree model is shared with C01-C03; the forest invariant is a hypothesis here (proved for parse by C03).")
 ASSUMPTIONS = ["regular expressions compile; lines contain no line break (so '^(?:p)$' with search is fullmatch)",
@@ -111,35 +110,19 @@ def mk(cfg, q, origin="gen"):
     if not all(wire.wire_safe(l) for l in lines):
         return case
     kept = T.ref_kept(lines, cfg["syntax"] == "ios", case["ignore_blank"])
-    # rows as the modelled code path consults them
+    # rows: the flag reading of the request applied to every expression
     rflags = flags
-    if api in ("pl", "cl"):
-        rflags = flags.replace("w", "")          # the list forms never look at ignore_ws (FC04a)
-        if "x" in flags:
-            rflags = rflags.replace("x", "")     # they raise before any search
     if api in ("rc", "hc", "br"):
         rflags = ""
-    in_model = True
-    consulted = list(pats)
     p1 = "-"
-    if api == "wl" and len(pats) == 2:
-        consulted = [pats[0]]
-        if len(pats[0]) >= 2:
-            c_eff = pats[0][1]
-            if "x" not in flags and not compiles(ws_pattern(c_eff) if "w" in flags else c_eff):
-                in_model = False
-            consulted.append(c_eff)
-    if "x" in rflags and "w" in rflags and any(has_ws(p) for p in consulted):
-        in_model = False                         # FC04c
-    if not in_model:
-        return case
-    if api in ("pl", "cl") and "x" in flags:
-        rows = [[False] * len(kept) for _ in pats]     # never consulted: TypeError before any search
-    else:
-        rows = [row_of(p, rflags, kept) for p in pats]
+    if api == "wl" and len(pats) == 2 and len(pats[0]) >= 2:
+        c_eff = pats[0][1]                       # F07: the expression the code really uses for the child
+        if "x" not in flags and not compiles(ws_pattern(c_eff) if "w" in flags else c_eff):
+            return case                          # re.error: not sent to the model
+    rows = [row_of(p, rflags, kept) for p in pats]
     if api == "wl" and len(pats) == 2 and len(pats[0]) >= 2:
         p1 = enc_row(row_of(pats[0][1], rflags, kept))
-    mflags = "".join(c for c in flags if c in "rcex")
+    mflags = "".join(c for c in flags if c in "rce")
     ds = T.cfg_delims(cfg["syntax"], cfg["delims"])
     case["req"] = wire.req(
         "search", "1" if cfg["syntax"] == "ios" else "0", wire.enc_str("".join(ds)), "1" if case["ignore_blank"] else "0",
@@ -594,18 +577,10 @@ def oracle(case, ans):
 
 
 def known_id(case, failure):
-    api, fl = case["api"], case["flags"]
+    api = case["api"]
     tag = failure[1:failure.index("]")] if failure.startswith("[") else ""
     if tag == "wo-child-list-uses-p1" and api == "wl" and len(case["pats"]) == 2:
         return "F07"
-    if tag in ("list-form-ignores-flags", "list-form-escape-typeerror") and api in ("pl", "cl") and set(fl) & set("wrx"):
-        return "FC04a"
-    if tag == "reverse-ignored" and api == "c2" and "r" in fl:
-        return "FC04b"
-    if tag == "escape-then-ws-composition" and "x" in fl and "w" in fl and any(has_ws(p) for p in case["pats"]):
-        return "FC04c"
-    if tag == "has-child-with-empty-text" and api == "hc":
-        return "FC04d"
     return None
 
 
